@@ -1,48 +1,96 @@
 (* C05 - Packages are attributed to the layer that introduced them.
-   Only statements here; proofs are in Proofs.v.  Histories are arbitrary lists of per-location
-   operations Keep | Write content | Delete (any length, any interleaving, any number of packages
-   per file, any number of files, any processing order of the packages). *)
+   Only statements here; proofs are in Proofs.v.
+   Two levels:
+   - abstract: the loop of PopulateLayerDetails over ANY sequence of views [vw] and ANY layer-diff test
+     [ex] (filesExistInLayer), under the one premise the skip branch relies on (skip_sound);
+   - images: histories of arbitrary length over any number of files, each layer keeping, writing,
+     deleting or sym-linking each location, empty layers, packages with several locations, the same
+     package key in several files, any processing order, one shared (location, layer) cache. *)
 From Coq Require Import List NArith Bool Arith.
 From Scalibr Require Import Trace.Model Trace.Proofs.
 Import ListNotations.
 
 (* the specification value is what the sentence says: present in every view from L to the last,
    L the first layer or the package absent just before L, and no smaller L has the first property *)
-Theorem origin_correct : forall ops p,
-  0 < length ops -> present ops p (pred (length ops)) = true ->
-  is_origin ops p (origin ops p) /\
-  (forall L', (forall j, L' <= j -> j < length ops -> present ops p j = true) -> origin ops p <= L').
+Theorem origin_correct : forall vw n p,
+  0 < n -> present vw p (pred n) = true ->
+  is_origin vw n p (origin vw n p) /\
+  (forall L', (forall j, L' <= j -> j < n -> present vw p j = true) -> origin vw n p <= L').
 Proof. exact origin_correct_lemma. Qed.
 Print Assumptions origin_correct.
 
-Theorem origin_unique : forall ops p L, is_origin ops p L -> origin ops p = L.
+Theorem origin_unique : forall vw n p L, is_origin vw n p L -> origin vw n p = L.
 Proof. exact origin_unique_lemma. Qed.
 Print Assumptions origin_unique.
 
-(* one package, any cache whose entries are what extraction of that view yields *)
-Theorem trace_one_eq_origin : forall ops loc p c,
-  cache_ok ops loc c -> 0 < length ops -> present ops p (pred (length ops)) = true ->
-  fst (trace_one ops loc p c) = origin ops p /\ cache_ok ops loc (snd (trace_one ops loc p c)).
+(* the loop, abstractly: whenever skipping is sound and nothing cancels the context, the walk from
+   the last layer returns the origin, keeps the cache truthful and leaves the context alive *)
+Theorem walk_eq_origin : forall vw ex n loc p c,
+  skip_sound vw ex n -> no_cancel vw n ->
+  cache_ok vw loc c -> 0 < n -> present vw p (pred n) = true ->
+  fst (fst (walk vw ex loc p (pred n) (pred n) c false)) = origin vw n p /\
+  cache_ok vw loc (snd (fst (walk vw ex loc p (pred n) (pred n) c false))) /\
+  snd (walk vw ex loc p (pred n) (pred n) c false) = false.
+Proof. exact walk_eq_origin_lemma. Qed.
+Print Assumptions walk_eq_origin.
+
+(* one package of a whole-file history; extra = layers that write one of its other locations *)
+Theorem trace_one_eq_origin : forall ops extra loc p c,
+  cache_ok (view ops) loc c -> 0 < length ops -> present (view ops) p (pred (length ops)) = true ->
+  no_cancel (view ops) (length ops) ->
+  fst (fst (trace_one ops extra loc p c)) = origin (view ops) (length ops) p /\
+  cache_ok (view ops) loc (snd (fst (trace_one ops extra loc p c))).
 Proof. exact trace_one_correct. Qed.
 Print Assumptions trace_one_eq_origin.
 
-(* the whole inventory, in any order, with the shared (location, layer) cache starting empty *)
-Theorem trace_eq_origin : forall h pkgs,
+(* the whole inventory of an image, in any order, with the shared cache starting empty.
+   pkg_ok = the package has a location, its first location is never a symbolic link (domain D), it is
+   in the final view, and no extraction of that location cancels the scan context. *)
+Theorem trace_eq_origin_on_D : forall h pkgs,
   0 < length h ->
-  (forall loc p, In (loc, p) pkgs -> present (ops_of h loc) p (pred (length h)) = true) ->
-  trace_all h pkgs [] = map (fun lp => origin (ops_of h (fst lp)) (snd lp)) pkgs.
+  (forall lp, In lp pkgs -> pkg_ok h lp) ->
+  trace_all h pkgs [] false = map (fun lp => origin (lview h (primary (fst lp))) (length h) (snd lp)) pkgs.
 Proof.
   intros h pkgs Hn Hin. apply trace_all_correct; auto.
   intros loc i v H. discriminate.
 Qed.
-Print Assumptions trace_eq_origin.
+Print Assumptions trace_eq_origin_on_D.
+
+(* ... and on D the views are the overlay of the location's whole-file operations *)
+Theorem view_of_regular_location : forall h loc,
+  link_free h loc = true -> forall i, i < length h -> lview h loc i = view (ops_of h loc) i.
+Proof. exact lview_link_free. Qed.
+Print Assumptions view_of_regular_location.
+
+(* Outside D the statement fails.  A package read through a symbolic link (ScanConfig.ReadSymlinks):
+   layer 0 writes file 1 = {7}, layer 1 links location 2 -> 1, layers 2 and 3 do not touch either.
+   The package (location 2, key 7) is in views 1, 2, 3, so its origin is layer 1; but filesExistInLayer
+   stats the link on the layer's own tree with symlink depth 0, which always fails, so every layer is
+   skipped until view 0 says not-exist and the package lands on lastScanned = the LAST layer. *)
+Definition ex_link_image : list clayer :=
+  [ mkCL 1 11 false [(1, LWrite [7])]; mkCL 2 12 false [(2, LLink 1)]; mkCL 3 13 false []; mkCL 4 14 false [] ]%N.
+
+Theorem symlinked_location_refuted :
+  exists h locs p,
+    locs <> [] /\ present (lview h (primary locs)) p (pred (length h)) = true /\
+    no_cancel (lview h (primary locs)) (length h) /\
+    link_free h (primary locs) = false /\
+    origin (lview h (primary locs)) (length h) p = 1 /\
+    trace_all h [(locs, p)] [] false = [3].
+Proof.
+  exists ex_link_image, [2%N], 7%N. split; [discriminate|]. split; [reflexivity|]. split.
+  - intros i cont Hi. do 4 (destruct i as [|i]; [vm_compute; intros H; inversion H; reflexivity|]).
+    exfalso. cbn in Hi. repeat apply Nat.succ_lt_mono in Hi. inversion Hi.
+  - vm_compute. repeat split.
+Qed.
+Print Assumptions symlinked_location_refuted.
 
 (* removed and re-added: attributed to the re-adding layer c, whatever happened before *)
-Theorem readded_attributed_to_readder : forall ops p c,
-  c < length ops ->
-  (c = 0 \/ present ops p (pred c) = false) ->
-  (forall j, c <= j -> j < length ops -> present ops p j = true) ->
-  origin ops p = c.
+Theorem readded_attributed_to_readder : forall vw n p c,
+  c < n ->
+  (c = 0 \/ present vw p (pred c) = false) ->
+  (forall j, c <= j -> j < n -> present vw p j = true) ->
+  origin vw n p = c.
 Proof. exact readded_lemma. Qed.
 Print Assumptions readded_attributed_to_readder.
 
@@ -50,15 +98,14 @@ Print Assumptions readded_attributed_to_readder.
    indices but leaves the attributed layer the same *)
 Theorem untouched_layers_irrelevant : forall h k L loc p (d : clayer),
   0 < length h -> k <= length h ->
-  assoc_op (cl_ops L) loc = Keep ->
-  present (ops_of h loc) p (pred (length h)) = true ->
-  origin (ops_of (insert_at k L h) loc) p = bump k (origin (ops_of h loc) p) /\
-  nth (origin (ops_of (insert_at k L h) loc) p) (insert_at k L h) d = nth (origin (ops_of h loc) p) h d.
+  assoc_op (cl_ops L) loc = LKeep -> link_free h loc = true ->
+  present (lview h loc) p (pred (length h)) = true ->
+  origin (lview (insert_at k L h) loc) (length (insert_at k L h)) p = bump k (origin (lview h loc) (length h) p) /\
+  nth (origin (lview (insert_at k L h) loc) (length (insert_at k L h)) p) (insert_at k L h) d =
+  nth (origin (lview h loc) (length h) p) h d.
 Proof.
-  intros h k L loc p d Hn Hk HK Hp.
-  assert (Hlen : length (ops_of h loc) = length h) by (unfold ops_of; apply map_length).
-  assert (E : origin (ops_of (insert_at k L h) loc) p = bump k (origin (ops_of h loc) p)).
-  { rewrite (ops_of_insert h k L loc HK). apply untouched_layer_lemma; rewrite ?Hlen; auto. }
+  intros h k L loc p d Hn Hk HK Hlf Hp.
+  pose proof (untouched_image_lemma h k L loc p Hn Hk HK Hlf Hp) as E.
   split; [exact E|]. rewrite E. apply nth_bump. exact Hk.
 Qed.
 Print Assumptions untouched_layers_irrelevant.
@@ -82,18 +129,30 @@ Print Assumptions align_history.
 Definition ex_ops : list op := [Write [1;2]; Keep; Delete; Write [2;3]; Keep; Write [2;3;4]]%N.
 
 Example origin_example :
-  map (origin ex_ops) [2; 3; 4]%N = [3; 3; 5] /\
-  map (fun p => fst (trace_one ex_ops 7%N p [])) [2; 3; 4]%N = [3; 3; 5].
+  map (origin (view ex_ops) 6) [2; 3; 4]%N = [3; 3; 5] /\
+  map (fun p => fst (fst (trace_one ex_ops (fun _ => false) 7%N p []))) [2; 3; 4]%N = [3; 3; 5].
 Proof. vm_compute. split; reflexivity. Qed.
 
 (* the skip branch and the cache are exercised: after tracing package 2 the cache holds entries for
-   layers 3 and 2 only (4 was skipped), and tracing 3 next reuses them *)
+   layers 3 and 2 only (4 was skipped); a second location written by layer 4 un-skips that layer *)
 Example cache_example :
-  map fst (snd (trace_one ex_ops 7%N 2%N [])) = [(7%N, 2); (7%N, 3)] /\
-  trace_all [ mkCL 1 11 false [(7, Write [1;2])]; mkCL 2 0 true []; mkCL 3 12 false [(7, Delete)];
-              mkCL 4 13 false [(7, Write [2;3]); (8, Write [2])]; mkCL 5 14 false [(8, Write [2;9])];
-              mkCL 6 15 false [(7, Write [2;3;4])] ]%N
-            [(7,2); (8,2); (7,3); (7,4); (8,9)]%N [] = [3; 3; 3; 5; 4].
+  map fst (snd (fst (trace_one ex_ops (fun _ => false) 7%N 2%N []))) = [(7%N, 2); (7%N, 3)] /\
+  map fst (snd (fst (trace_one ex_ops (fun i => Nat.eqb i 4) 7%N 2%N []))) = [(7%N, 2); (7%N, 3); (7%N, 4)] /\
+  trace_all [ mkCL 1 11 false [(7, LWrite [1;2])]; mkCL 2 0 true []; mkCL 3 12 false [(7, LDelete)];
+              mkCL 4 13 false [(7, LWrite [2;3]); (8, LWrite [2])]; mkCL 5 14 false [(8, LWrite [2;9])];
+              mkCL 6 15 false [(7, LWrite [2;3;4])] ]%N
+            [([7],2); ([8;7],2); ([7;8],3); ([7],4); ([8],9)]%N [] false = [3; 3; 3; 5; 4].
+Proof. vm_compute. repeat split. Qed.
+
+(* Outside the property's quantifier, stated for the record: when filesystem.Run fails in the middle of
+   the backwards walk (the scan context was cancelled) the loop breaks and the package is attributed
+   to layer 0, although it was introduced by layer 2.  Here the extraction of view 1 (marker key 0)
+   cancels the context; the first package is still traced correctly, every later extraction fails. *)
+Example run_error_attributes_to_layer_0 :
+  let h := [ mkCL 1 11 false [(1, LWrite [5])]; mkCL 2 12 false [(1, LWrite [0; 5]); (2, LWrite [5])];
+             mkCL 3 13 false [(1, LWrite [5; 6]); (2, LWrite [5; 6])]; mkCL 4 14 false [] ]%N in
+  trace_all h [([1], 6); ([2], 6)]%N [] false = [2; 0] /\
+  origin (lview h 2%N) 4 6%N = 2.
 Proof. vm_compute. split; reflexivity. Qed.
 
 Example align_example :
